@@ -65,9 +65,13 @@ var (
 	shUKeyed  = uni("keyed", member{"Str", "String", "str", shStr}, member{"Num", "Int", "num", shInt})
 	shUKinded = uni("kinded", member{"Str", "String", "", shStr}, member{"Num", "Int", "", shInt})
 	shUPrefix = uni("stringprefix", member{"A", "StrA", "a:", shStr}, member{"B", "StrB", "b:", shStr})
-	shMood    = &shape{kind: "enum", repr: "string", enum: map[string]interface{}{"Happy": "happy", "Sad": "sad"}}
-	shLevel   = &shape{kind: "enum", repr: "int", enum: map[string]interface{}{"Low": int64(1), "High": int64(2)}}
-	fiveOpt   = []fld{fo("A", shInt), fo("B", shInt), fo("C", shInt), fo("D", shInt), fo("E", shInt)}
+	shUK2     = uni("kinded",
+		member{"T", "Tuple", "", stc("tuple", fd("X", shInt), fd("Y", shInt))},
+		member{"J", "Joined", "", &shape{kind: "struct", repr: "stringjoin", join: ":", fields: []fld{fd("A", shStr), fd("B", shStr)}}},
+		member{"N", "Int", "", shInt})
+	shMood  = &shape{kind: "enum", repr: "string", enum: map[string]interface{}{"Happy": "happy", "Sad": "sad"}}
+	shLevel = &shape{kind: "enum", repr: "int", enum: map[string]interface{}{"Low": int64(1), "High": int64(2)}}
+	fiveOpt = []fld{fo("A", shInt), fo("B", shInt), fo("C", shInt), fo("D", shInt), fo("E", shInt)}
 )
 
 var shapes = map[string]*shape{
@@ -98,6 +102,8 @@ var shapes = map[string]*shape{
 	"Clash":        stc("map", fd("A", stc("map", fd("N", shInt))), fd("B", stc("map", fd("N", shInt), fd("M", shStr)))),
 	"HasMapAny":    stc("map", fd("M", mpo(shAny))),
 	"HasMapN":      stc("map", fd("M", &shape{kind: "map", elem: shInt, elemNul: true}), fd("LL", lst(lst(shStr, false), false)), fn("NL", lst(shInt, false))),
+	"HasMapOpt":    stc("map", fd("M", mpo(stc("map", fo("A", shStr), fd("L", lst(shInt, false)), fd("M", mpo(shInt)))))),
+	"HasUK2":       stc("map", fd("A", shUK2), fd("B", shUK2), fd("C", shUK2), fd("D", shUK2)),
 	"BigU":         stc("map", fd("U", shInt), fd("L", lst(shInt, false)), fd("N", lst(lst(shInt, false), false))),
 	"pk1.Foo":      stc("map", fd("A", shStr), fd("N", shInt)),
 	"pk2.Foo":      stc("map", fd("X", shBool), fd("L", lst(shInt, false))),
